@@ -36,13 +36,24 @@ def generate(ctx):
     rng = random.Random(ctx['seed'] * 104729 + 7)
     quick = ctx['tier'] == 'quick'
     cases = aliasing_cases() + coregen.print_failure_cases()
+    # parsing inside histories: accepted texts join the pool and are deleted at the end; rejected ones (malformed, or a complete value
+    # followed by a trailer when termination is required) must leave the ledger exactly as it was
+    texts = [b'{"name":"x","list":[1,2,3]}', b'[[],{},"s",null,true,1.5]', b'"just a string"', b'{"a":{"b":{"c":[1,{"d":"e"}]}}}', b'[1,2', b'{"a":1,', b'{"k":"v"} trailer',
+             b'"s"]', b'[1,2,3] x', b'{"a":[1,2,{"b":"c"}]}}', b'[{"x":"y"},"z"]junk', b'nul', b'{"a":tru}', b'["\\ud800"]', b'[1,2,3]   ', b'{"k":"v"}\x00junk']
+    for t in texts:
+        for rnt in (0, 1):
+            for op in ('parseo', 'parsel', 'parse'):
+                if op == 'parse' and rnt: continue
+                o = ('parse:' + t.hex()) if op == 'parse' else ('%s:%d:%s' % (op, rnt, t.hex()))
+                # S: the heap model does not cover the parser (its ledger is ParseDefs'); these cases are judged by the verdict
+                cases.append(Case('hist XS 0 obj;astr:0:x6b:x76;%s;size:0;%s;anull:0:x6e' % (o, o), {'tags': ['parse-in-history', op, 'rnt%d' % rnt]}))
     n = 400 if quick else 6000
     for i in range(n):
         nops = 40 if quick else rng.choice([20, 40, 80, 200])
         cases.append(coregen.history_case(rng, 'own' if i % 5 else 'dup', nops, 'DX', with_print=True))
     return cases
 
-def project(c, out): return coregen.ledger_only(out)
+def project(c, out): return '' if 'S' in c.line.split(' ')[1] else coregen.ledger_only(out)
 
 def verdict(c, out, ctx):
     hp = coregen.health_problem(out)
@@ -53,6 +64,9 @@ def verdict(c, out, ctx):
     def live_after(i):
         for t in segs[i].split(' '):
             if t.startswith('L') and t[1:].isdigit(): return int(t[1:])
+    for i, o in enumerate(ops):     # a parse that returns NULL leaves the ledger as it was
+        if o.startswith('parse') and 0 < i < len(segs) and segs[i].split(' ')[0] == '-' and live_after(i) != live_after(i - 1):
+            return 'rejected parse (call %d) changed the ledger: %s -> %s blocks' % (i, live_after(i - 1), live_after(i))
     for i, o in enumerate(ops):     # printing (successful or not) leaves the ledger as it was
         if o.startswith('print') and 0 < i < len(segs) and live_after(i) != live_after(i - 1):
             return 'ledger changed across call %d (%s): %s -> %s blocks' % (i, o, live_after(i - 1), live_after(i))
